@@ -379,28 +379,28 @@ theorem C07_extend_pushes (v : Vec) (hv : v.Inv) (bs : List Bool) :
 
 /-- `Extend<Bit>::extend(bits)`: the dynamic and auto types reserve the size hint first (which changes nothing
 observable), then every type pushes one bit at a time. -/
-theorem C07_extend (v : Vec) (hv : v.Inv) (bs : List Bool) :
-    EditOk v (Api.extend v bs) (v.abs.extend bs) := by
+theorem C07_extend (v : Vec) (hv : v.Inv) (bs : List Bool) (hint : Nat := bs.length) :
+    EditOk v (Api.extend v bs hint) (v.abs.extend bs) := by
   cases v with
   | f w s => exact C07_extend_pushes (.f w s) hv bs
   | d s =>
-    have r := Bvd.reserve_refines s bs.length hv
-    have h := C07_extend_pushes (.d (Bvd.reserve s bs.length)) r.1 bs
-    have ea : (Vec.d (Bvd.reserve s bs.length)).abs = (Vec.d s).abs := r.2.1
+    have r := Bvd.reserve_refines s hint hv
+    have h := C07_extend_pushes (.d (Bvd.reserve s hint)) r.1 bs
+    have ea : (Vec.d (Bvd.reserve s hint)).abs = (Vec.d s).abs := r.2.1
     rw [ea] at h
     exact h
   | a c =>
-    have r := Bv.reserve_refines c bs.length hv.bvinv
-    have h := C07_extend_pushes (.a (c.reserve bs.length)) (Vec.Inv.of_bvinv r.1) bs
-    have ea : (Vec.a (c.reserve bs.length)).abs = (Vec.a c).abs := r.2.1
+    have r := Bv.reserve_refines c hint hv.bvinv
+    have h := C07_extend_pushes (.a (c.reserve hint)) (Vec.Inv.of_bvinv r.1) bs
+    have ea : (Vec.a (c.reserve hint)).abs = (Vec.a c).abs := r.2.1
     rw [ea] at h
     exact h
 
 /-- `FromIterator<Bit>` (`collect`): `with_capacity(size_hint)` then push — the result is the vector whose
 list of bits is the iterator's items; for a fixed type it panics exactly when there are more items than capacity. -/
-theorem C07_collect (t : Ty) (ht : match t with | .f w _ => WOk w | _ => True) (bs : List Bool) :
+theorem C07_collect (t : Ty) (ht : match t with | .f w _ => WOk w | _ => True) (bs : List Bool) (hint : Nat) :
     (match t with | .f w N => bs.length ≤ N * w | _ => True) →
-    ∃ r, Api.collect t bs = .ok r ∧ r.Inv ∧ r.abs = BV.ofBits bs ∧ r.ty = t := by
+    ∃ r, Api.collect t bs hint = .ok r ∧ r.Inv ∧ r.abs = BV.ofBits bs ∧ r.ty = t := by
   intro hfit
   cases t with
   | f w N =>
@@ -414,16 +414,16 @@ theorem C07_collect (t : Ty) (ht : match t with | .f w _ => WOk w | _ => True) (
     simp only [Api.collect, Api.withCapacity, ez, liftF, Res.bind]
     exact e
   | d =>
-    have r0 := Bvd.withCapacity_refines bs.length
-    have h := (C07_extend_pushes (.d (Bvd.withCapacity bs.length)) r0.1 bs).1
-    have ea : (Vec.d (Bvd.withCapacity bs.length)).abs = BV.zeros 0 := r0.2.1
+    have r0 := Bvd.withCapacity_refines hint
+    have h := (C07_extend_pushes (.d (Bvd.withCapacity hint)) r0.1 bs).1
+    have ea : (Vec.d (Bvd.withCapacity hint)).abs = BV.zeros 0 := r0.2.1
     rw [ea, BV.extend_zeros_eq_ofBits] at h
     obtain ⟨r, e, hr, ha, tr⟩ := h trivial
     exact ⟨r, by simp only [Api.collect, Api.withCapacity, Res.bind]; exact e, hr, ha, tr⟩
   | a =>
-    have r0 := Bv.withCapacity_refines bs.length
-    have h := (C07_extend_pushes (.a (Bv.withCapacity bs.length)) (Vec.Inv.of_bvinv r0.1) bs).1
-    have ea : (Vec.a (Bv.withCapacity bs.length)).abs = BV.zeros 0 := r0.2.1
+    have r0 := Bv.withCapacity_refines hint
+    have h := (C07_extend_pushes (.a (Bv.withCapacity hint)) (Vec.Inv.of_bvinv r0.1) bs).1
+    have ea : (Vec.a (Bv.withCapacity hint)).abs = BV.zeros 0 := r0.2.1
     rw [ea, BV.extend_zeros_eq_ofBits] at h
     obtain ⟨r, e, hr, ha, tr⟩ := h trivial
     exact ⟨r, by simp only [Api.collect, Api.withCapacity, Res.bind]; exact e, hr, ha, tr⟩
